@@ -451,6 +451,10 @@ from_feel_number_into!(u32);
 
 /// Converts a string in scientific notation into digits without exponent.
 fn scientific_to_plain(s: String) -> String {
+  // the sign is not a part of the digits that are moved around the decimal point
+  if let Some(unsigned) = s.strip_prefix('-') {
+    return format!("-{}", scientific_to_plain(unsigned.to_string()));
+  }
   if s.contains("E+") {
     let mut split1 = s.split("E+");
     let before_exponent = split1.next().unwrap();
